@@ -1,4 +1,4 @@
-import os, sys, random
+import os, sys, random, json
 sys.path.insert(0, os.path.join(os.path.dirname(os.path.abspath(__file__)), '..', 'lib'))
 sys.path.insert(0, os.path.dirname(os.path.abspath(__file__)))
 import vlib, flow, gen_trans
@@ -289,8 +289,8 @@ class C06(flow.Spec):
                 continue
             seen.add(sig)
             c = cases[i] if i < len(cases) else None
-            res.append((sig, msg, dict(kind='mem-call', call=describe(c) if c else None, case=['%x' % v for v in c] if c else None,
-                                       replay='VERIF_CASES=<file with "0 <case>"> go test -tags verif -run TestVerifC06Mem . in /repo/kernel (with the overlay of checks/C06.py)')))
+            res.append((sig, msg, dict(kind='mem-call', call=describe(c) if c else None, mem_case=['%x' % v for v in c] if c else None,
+                                       replay='bin/check C06 --replay <this file>')))
         try:
             vlib.run_model('C06mem', cpath, mpath)
             mobs, _, _ = vlib.parse_out(mpath)
@@ -298,7 +298,7 @@ class C06(flow.Spec):
             if bad and not mons:
                 i = min(bad, key=lambda k: cases[k][1])
                 res.append(('c06:mem-model-mismatch', 'Kernel/MemUtil.v and mem_util.go differ on %d of %d calls, smallest: %s' % (len(bad), len(cases), describe(cases[i])),
-                            dict(kind='mem-call', call=describe(cases[i]), case=['%x' % v for v in cases[i]], no_failing_input=True, correspondence='Kernel/MemUtil.v run_case vs kernel.Memset/Memcopy (TestVerifC06Mem)')))
+                            dict(kind='mem-call', call=describe(cases[i]), mem_case=['%x' % v for v in cases[i]], no_failing_input=True, replay='bin/check C06 --replay <this file>', correspondence='Kernel/MemUtil.v run_case vs kernel.Memset/Memcopy (TestVerifC06Mem)')))
         except Exception as ex:
             res.append(('c06:mem-model-failed', str(ex)[-600:], None))
         self.mem_info = dict(cases=len(cases), memset=sum(1 for c in cases if c[0] == 0), memcopy=sum(1 for c in cases if c[0] == 1),
@@ -316,5 +316,40 @@ class C06(flow.Spec):
         return pc.shrink_candidates(nums)
 
 
+def mem_replay(obj):
+    """bin/check C06 --replay <file> for a recorded Memset/Memcopy call (key mem_case)"""
+    nums = [int(x, 16) for x in obj['mem_case']]
+    wd = vlib.ensure_dir(os.path.join(vlib.WORK, 'C06', 'replay'))
+    vlib.regen()
+    vlib.coq_build(['theories/Kernel/MemUtil.vo'])
+    cpath, gpath, mpath = (os.path.join(wd, n) for n in ('cases_mem.txt', 'go_mem.out', 'model_mem.out'))
+    vlib.write_cases(cpath, [nums])
+    hk = os.path.join(vlib.ROOT, 'harness/kernel/root/zz_verif_c06mem_test.go')
+    rc, out, _ = vlib.run_go(wd, 'kernel', '', [hk], 'TestVerifC06Mem$', cases_path=cpath, out_path=gpath, timeout=300)
+    gobs, mons, _ = vlib.parse_out(gpath)
+    print('case       :', ' '.join('%x' % v for v in nums))
+    print('impl obs   :', ' '.join(gobs.get(0, ['<none>']))[:400])
+    for (i, s, m) in mons:
+        print('impl MONITOR-FAIL:', s, m)
+    if rc != 0:
+        print(out[-2000:])
+    try:
+        vlib.run_model('C06mem', cpath, mpath)
+        mobs, _, _ = vlib.parse_out(mpath)
+        print('model obs  :', ' '.join(mobs.get(0, ['<none>']))[:400])
+        print('model and implementation', 'AGREE' if mobs.get(0) == gobs.get(0) else 'DIFFER')
+    except Exception as ex:
+        print('model failed:', str(ex)[-400:])
+    return 1 if mons else 0
+
+
 if __name__ == '__main__':
+    if '--replay' in sys.argv:
+        try:
+            o = json.load(open(sys.argv[sys.argv.index('--replay') + 1]))
+            o = o if 'mem_case' in o else (o.get('detail') or {})
+        except Exception:
+            o = {}
+        if 'mem_case' in o:
+            sys.exit(mem_replay(o))
     sys.exit(flow.standard_check(C06(), sys.argv[1:]))
